@@ -353,6 +353,7 @@ func (t *Tr) callInner(instr ssa.Instruction, cc *ssa.CallCommon, pos token.Pos,
 		// frame
 		t.havocForCall(cc, ct, env, st)
 		res := t.callResults(instr, rtypes, st)
+		t.sentinelFacts(cc, rtypes, res)
 		penv := *env
 		penv.vars = map[string]*SVal{}
 		for k, v := range env.vars {
@@ -401,6 +402,7 @@ func (t *Tr) callInner(instr ssa.Instruction, cc *ssa.CallCommon, pos token.Pos,
 	}
 	t.havocForCall(cc, nil, nil, st)
 	res := t.callResults(instr, rtypes, st)
+	t.sentinelFacts(cc, rtypes, res)
 	// errors from well-known constructors are non-nil
 	if callee != nil && rtypes.Len() == 1 && isErrorCtor(callee.String()) {
 		if strings.HasPrefix(callee.String(), "google.golang.org/grpc/status.Error") && len(cc.Args) > 0 {
@@ -440,6 +442,41 @@ func (t *Tr) ifaceKey(cc *ssa.CallCommon) string {
 		tn = n.Obj().Name()
 	}
 	return pk + "." + tn + "." + cc.Method.Name()
+}
+
+// sentinelFacts: an error returned by a call whose callees cannot reach a frozen sentinel error
+// variable is not that sentinel (assumption: sentinel errors do not travel through the heap).
+func (t *Tr) sentinelFacts(cc *ssa.CallCommon, rtypes *types.Tuple, res *Val) {
+	if res == nil {
+		return
+	}
+	for _, gi := range t.sp.GlobalInvs {
+		sp := t.w.SPkgs[gi.Pkg]
+		if sp == nil {
+			continue
+		}
+		g, ok := sp.Members[gi.Global].(*ssa.Global)
+		if !ok || deref(g.Type()).String() != "error" || !t.ms.frozenOK(gi) {
+			continue
+		}
+		if !t.ms.cannotReturnGlobal(cc, gi.Pkg+"."+gi.Global) {
+			continue
+		}
+		comp := compGlobal(gi.Pkg, gi.Global)
+		t.c.regComp(comp, SInt)
+		gv := t.c.get(t.curSt, comp)
+		for i := 0; i < rtypes.Len(); i++ {
+			if rtypes.At(i).Type().String() != "error" {
+				continue
+			}
+			r := res
+			if rtypes.Len() > 1 {
+				r = res.Tup[i]
+			}
+			t.c.assert(or(eq(r.T, tInt(0)), not(eq(r.T, gv))))
+			t.trusted["sentinel errors ("+gi.Pkg+"."+gi.Global+" ...) are only produced by functions that reference them (they do not travel through the heap)"] = true
+		}
+	}
 }
 
 func (t *Tr) callResults(instr ssa.Instruction, rtypes *types.Tuple, st *State) *Val {
@@ -1003,6 +1040,23 @@ func (t *Tr) pointEnv(instr ssa.Instruction, cc *ssa.CallCommon) *Env {
 // global invariants (frozen package-level tables)
 
 func (t *Tr) assumeGlobalInvs(st *State, guard Term) {
+	// frozen sentinel errors of one package are distinct values (each is a separate errors.New result)
+	var sent []Term
+	for _, gi := range t.sp.GlobalInvs {
+		sp := t.w.SPkgs[gi.Pkg]
+		if sp == nil || t.key == gi.Pkg+".init" {
+			continue
+		}
+		if g, ok := sp.Members[gi.Global].(*ssa.Global); ok && deref(g.Type()).String() == "error" && t.ms.frozenOK(gi) {
+			comp := compGlobal(gi.Pkg, gi.Global)
+			t.c.regComp(comp, SInt)
+			sent = append(sent, t.c.get(st, comp))
+		}
+	}
+	if len(sent) > 1 {
+		t.c.assert(implies(guard, app("distinct", SBool, sent...)))
+		t.trusted["package-level sentinel errors are pairwise distinct (separate errors.New results)"] = true
+	}
 	for _, gi := range t.sp.GlobalInvs {
 		if !t.ms.frozenOK(gi) {
 			continue
